@@ -38,6 +38,7 @@ def run(ctx, sess):
     ctx.explanation = EXPL
     ctx.not_decided = NOT_DECIDED
     ctx.rule('C09.10', 'distances between sample ids are narrowed only when bounded: every conversion of a 64-bit difference of two ids to 32 bits in the block writer is preceded on every path by a 64-bit compare that relates the same two ids to a third quantity (the length), so a distance of 2^32 or more is never mistaken for a small one')
+    ctx.rule('C09.11', 'a window without samples is absent, not a set of sentinels: where the reader turns an accumulator into a {mean, min, max, std} entry, the fields are delivered only behind a test of the sample count (an empty accumulator becomes NaN, as on the level-0 path)')
     ctx.rule('C09.8', 'an all-gap piece is absent, not NaN: combining with an empty accumulator copies the other operand / resets the target (shared with C20.2)')
     from .common import relay
     from . import c20 as _src_c20
@@ -447,6 +448,7 @@ def run(ctx, sess):
     realign_reads_rule(ctx, P, f, fd, psz, dts)
     level0_stats_rule(ctx, P)
     narrowing_rule(ctx, P)
+    empty_window_rule(ctx, P)
 
 
 def single_packer(ctx, P):
@@ -677,3 +679,31 @@ def narrowing_rule(ctx, P):
                    'the distance %s - %s is cut to 32 bits before anything bounds it: a write that lies 2^32 + k samples behind the next expected id is treated as lying k samples behind (its tail is appended, the following block loses its first samples)' % (a, b),
                    w.render() if w else None)
     ctx.floor('narrowed id distances in the block writer', n, 1)
+
+
+def empty_window_rule(ctx, P):
+    """an accumulator that holds no sample is delivered as an absent entry, not as the reset sentinels"""
+    n = 0
+    for fn in P.fns_in('src/reader.c'):
+        # converters accumulator -> summary entry: stores  data[COLUMN] = stats->field
+        outs = []
+        for ev in fn.stores():
+            lhs, rhs, o = ev.store_parts()
+            l0 = strip_casts(lhs)
+            if l0.get('op') == 'sub' and rhs is not None and any(m.get('op') == 'ref' and (m.get('name') or '').startswith('JLS_SUMMARY_FSR_') for m in walk(l0['k'][1])) and \
+                    any(m.get('op') == 'member' and m.get('field') in ('mean', 'min', 'max') and m.get('rec') == 'jls_statistics_s' for m in walk(rhs)):
+                outs.append(ev)
+        if not outs:
+            continue
+        ctx.saw(fn, 1)
+        for ev in outs:
+            n += 1
+            guarded = False
+            for (bid, label) in control_deps_transitive(fn, ev.block.id):
+                c = fn.blocks[bid].cond
+                if c is not None and any(m.get('op') == 'member' and m.get('field') == 'k' for m in walk(c)):
+                    guarded = True
+            ctx.ob('C09.11', guarded, fn.name, 'delivery of %s' % show(strip_casts(ev.store_parts()[1]))[:30], ev.where(),
+                   'behind a test of the sample count' if guarded else
+                   'an accumulator without samples (a window that lies inside a gap) is delivered as it was reset: mean 0, min DBL_MAX, max -DBL_MAX - the level-0 path returns NaN for the same window')
+    ctx.floor('accumulator fields delivered as summary columns', n, 3)
